@@ -19,7 +19,11 @@
        its "prepare memory" form (element size 0) never changes a value, its
        verdict [hacc] is the implementation's;
      - the C++ slice::shift/trim and array = slice are applied by the harness only
-       to a slice whose window lies inside the data ([hcons]). *)
+       to a slice whose window lies inside the data ([hcons]);
+     - class templates: a shared NoCopy block with content refuses every method that needs a
+       private copy ([blocked], as above); pointer_array::compact leaves immutable data
+       alone ([him]); template methods are applied to values of their own element type
+       only ([s_tok], static typing), pointer_array::swap only to a handle that owns a block. *)
 From MptV Require Import Base.Mem C04.ArrayModel.
 Local Open Scope nat_scope.
 Local Open Scope bool_scope.
@@ -207,6 +211,101 @@ Definition s_xtrim (h : hint) (v : sval) (n : nat) : sval * outcome :=
   if length (svec v) <? n then R v else
   D (match v with None => None | Some (t, l) => Some (t, firstn (length l - n) l) end).
 
+(* ---- class templates of mptcore/array.h: the handle holds elements of [tr] bytes; positions are C longs
+   ([tpos]); a template operation is applied to a value of its own element type only *)
+Definition s_tok (v : sval) (tr : nat) : bool :=
+  negb (tr =? 0) && match v with None => true | Some (t, _) => t =? tr end.
+Definition s_tokb (v : sval) (tr : nat) : bool :=
+  match v with None => false | Some _ => s_tok v tr end.
+
+Definition s_tnew (tr : nat) : sval * outcome := D (Some (tr, [])).
+
+Definition s_treserve (h : hint) (v : sval) (tr : nat) (len : tpos) : sval * outcome :=
+  let l := svec v in
+  match t_at (length l / tr) len with
+  | None => R v
+  | Some _ => if blocked h l then R v else D (Some (tr, l))
+  end.
+
+Definition s_tinsert (h : hint) (v : sval) (tr : nat) (pos : tpos) (d : list byte) : sval * outcome :=
+  let l := svec v in
+  match t_at (length l / tr) pos with
+  | None => R v
+  | Some p => if blocked h l then R v else D (Some (tr, ins l (p * tr) d))
+  end.
+
+Definition s_tstore (h : hint) (v : sval) (tr : nat) (pos : tpos) (off : nat) (d : list byte) : sval * outcome :=
+  let l := svec v in
+  let n := length l / tr in
+  match t_at n pos with
+  | None => R v
+  | Some p => if n <=? p then R v else if blocked h l then R v else D (Some (tr, put l (p * tr + off) d))
+  end.
+
+Definition resizev (l : list byte) (m : nat) : list byte := firstn m l ++ zeros (m - length l).
+
+Definition s_tresize (h : hint) (v : sval) (tr : nat) (len : tpos) : sval * outcome :=
+  let l := svec v in
+  match t_at (length l / tr) len with
+  | None => R v
+  | Some m => if blocked h l then R v else
+              match len with
+              | PBack _ => D (Some (tr, l))
+              | _ => D (Some (tr, resizev l (m * tr)))
+              end
+  end.
+
+Definition s_tdetach (h : hint) (v : sval) (tr : nat) : sval * outcome :=
+  if blocked h (svec v) then R v else D (Some (tr, svec v)).
+
+Definition s_pcompact (h : hint) (v : sval) (tr : nat) : sval * outcome :=
+  match v with
+  | None => D v
+  | Some (t, l) => if him h then D v else D (Some (t, compactv (length l / tr) tr l))
+  end.
+
+Definition swapv (l : list byte) (tr q1 q2 : nat) : list byte :=
+  put (put l (q1 * tr) (firstn tr (skipn (q2 * tr) l))) (q2 * tr) (firstn tr (skipn (q1 * tr) l)).
+
+Definition s_pswap (h : hint) (v : sval) (tr : nat) (p1 p2 : option nat) : sval * outcome :=
+  let l := svec v in
+  let n := length l / tr in
+  if blocked h l then R v else
+  match p1, p2 with
+  | Some q1, Some q2 => if (n <=? q1) || (n <=? q2) then R v else D (Some (tr, swapv l tr q1 q2))
+  | _, _ => R v
+  end.
+
+Definition s_mset (h : hint) (v : sval) (ks tr : nat) (key val : list byte) : sval * outcome :=
+  let l := svec v in
+  match find_key (length l / tr) 0 ks tr l key with
+  | Some i => s_tstore h v tr (PFwd i) ks val
+  | None => s_tinsert h v tr PEnd (key ++ val)
+  end.
+
+(* reading is a function of the value: get(pos), offset(element), unused(), map::get(key), map::values(key) *)
+Definition elem_at (l : list byte) (tr : nat) (pos : tpos) : option (list byte) :=
+  let n := length l / tr in
+  match t_at n pos with
+  | None => None
+  | Some p => if n <=? p then None else Some (firstn tr (skipn (p * tr) l))
+  end.
+Definition offset_of (l : list byte) (tr : nat) (e : list byte) : option nat := find_key (length l / tr) 0 tr tr l e.
+Definition unused_of (l : list byte) (tr : nat) : nat := unusedv (length l / tr) tr l.
+Definition map_get (l : list byte) (ks tr : nat) (key : list byte) : option (list byte) :=
+  match find_key (length l / tr) 0 ks tr l key with
+  | Some i => Some (firstn (tr - ks) (skipn (i * tr + ks) l))
+  | None => None
+  end.
+Fixpoint map_valuesn (n ks tr : nat) (l : list byte) (key : option (list byte)) : list byte :=
+  match n with
+  | 0 => []
+  | S n' => (if match key with None => true | Some k => list_eqb (firstn ks l) k end
+             then firstn (tr - ks) (skipn ks l) else []) ++ map_valuesn n' ks tr (skipn tr l) key
+  end.
+Definition map_values (l : list byte) (ks tr : nat) (key : option (list byte)) : list byte :=
+  map_valuesn (length l / tr) ks tr l key.
+
 (* one operation on the vector of all handle values: only the target changes *)
 Definition sstep (vs : list sv) (o : op) (h : hint) : list sv * outcome :=
   let x := target o in
@@ -252,6 +351,20 @@ Definition sstep (vs : list sv) (o : op) (h : hint) : list sv * outcome :=
     else fin (s_xmks (snd (nth y vs (false, None))))
   | OXShift _ n => fin (s_xshift h v n)
   | OXTrim _ n => fin (s_xtrim h v n)
+  | OTNew _ tr _ len => if tr =? 0 then (vs, OGuard) else fin (s_tnew tr)
+  | OTInsert _ tr _ pos d =>
+    if negb (s_tok v tr && (length d =? tr)) then (vs, OGuard) else fin (s_tinsert h v tr pos d)
+  | OTStore _ tr _ pos d =>
+    if negb (s_tok v tr && (length d =? tr)) then (vs, OGuard) else fin (s_tstore h v tr pos 0 d)
+  | OTReserve _ tr _ len => if negb (s_tok v tr) then (vs, OGuard) else fin (s_treserve h v tr len)
+  | OTResize _ tr _ len => if negb (s_tok v tr) then (vs, OGuard) else fin (s_tresize h v tr len)
+  | OTDetach _ tr _ => if negb (s_tok v tr) then (vs, OGuard) else fin (s_tdetach h v tr)
+  | OTRead _ => fin (D v)
+  | OPCompact _ tr => if negb (s_tok v tr) then (vs, OGuard) else fin (s_pcompact h v tr)
+  | OPSwap _ tr p1 p2 => if negb (s_tokb v tr) then (vs, OGuard) else fin (s_pswap h v tr p1 p2)
+  | OMSet _ ks tr key val =>
+    if negb (s_tok v tr && (length key =? ks) && (ks + length val =? tr)) then (vs, OGuard)
+    else fin (s_mset h v ks tr key val)
   end.
 
 (* ---- the link to the mechanism state *)
